@@ -200,8 +200,7 @@ impl Evaluator {
                         let expression = value.get_expression();
 
                         // converting the value to a string may call `__tostring`
-                        (!self.pure_metamethods
-                            && self.maybe_metatable(&self.evaluate(expression)))
+                        (!self.pure_metamethods && self.maybe_metatable(&self.evaluate(expression)))
                             || self.has_side_effects(expression)
                     }
                 }),
